@@ -498,6 +498,12 @@ static void run_case(void) {
     perturb_get_profile(prof_idx, &prof);
     perturb_begin(pseed, &prof);
     perturb_bind(0);
+    {
+        char what[160];
+        snprintf(what, sizeof(what), "%d clients, %d tasks, profile=%s: a release / schedule / cancel call did not return", S.nclients, S.ntasks,
+                 perturb_profile_name(prof_idx));
+        mon_watchdog_arm(120, "C08:hang", what);
+    }
     S.sched = aws_thread_scheduler_new(mon_guard_allocator(), aws_default_thread_options());
     if (!S.sched) {
         perturb_end();
@@ -545,6 +551,7 @@ static void run_case(void) {
         do_release();
     }
     perturb_end();
+    mon_watchdog_disarm();
     mon_guard_set_release_hook(NULL, NULL);
     if (S.nclients > 1) {
         mon_flag(F_MULTI_CLIENT);
@@ -584,6 +591,9 @@ static void run_case(void) {
 int main(int argc, char **argv) {
     mon_init(argc, argv, "C08");
     aws_common_library_init(aws_default_allocator());
+    /* start the watchdog thread while no perturbation / fault injection is active */
+    mon_watchdog_arm(3600, "C08:hang", "startup");
+    mon_watchdog_disarm();
     static const char *names[] = {"cancel_far_future_strict", "cancel_racing_by_client", "cancel_from_task_on_scheduler_thread", "release_right_after_schedule",
                                   "tasks_pending_at_release", "self_reschedule", "task_schedules_task", "multiple_clients", "final_release_by_client",
                                   "run_then_canceled_ambiguous", "unused", "timed_task_ran"};
